@@ -91,7 +91,12 @@ def oracle(table, got):
             j, w = v
         except Exception:   # noqa
             return [dict(tag='bad-entry', site='min_weight_bipartite_matching')]
-        if not (isinstance(i, int) and isinstance(j, int) and 0 <= i < n and 0 <= j < m):
+        try:
+            import operator
+            i, j = operator.index(i), operator.index(j)      # numpy integers in the real run
+        except TypeError:
+            return [dict(tag='bad-entry', site='min_weight_bipartite_matching')]
+        if not (0 <= i < n and 0 <= j < m):
             fails.append(dict(tag='index-out-of-range', site='min_weight_bipartite_matching', detail=f"({i},{j})"))
             return fails
         pairs.append((i, j, w))
